@@ -2,6 +2,7 @@ import JSL.Inv.Offers
 import JSL.Inv.EnvReach
 import JSL.Props.Example
 import JSL.Props.C18
+import JSL.Inv.Applies
 
 /-!
 # C05 — every offered action can be taken (what is proved, and what is false)
@@ -13,7 +14,14 @@ Proved, for every state of every episode:
 * `c05_result_invariants` – whenever a step returns normally, the new state – and every sub-state
   and the post-state of every transition applied inside the step – satisfies all structural,
   schedule and duration invariants again;
-* `c05_decline_many_total` – declining one of several offers always returns normally.
+* `c05_decline_many_total` – declining one of several offers always returns normally;
+* `c05_offered_transition_applies` – **applying an offered transition never raises**: in every
+  environment state of every episode, every transition on offer is applied by `apply_transition`
+  without an exception, provided the configuration tables are total where the two start handlers
+  read them and the initial state is ready (`tablesTotalB`, `readyB`: decidable, printed on the `G`
+  line of every scenario by both sides).  `c05_tables_must_be_total`: without a travel row from the
+  output buffer an offered dispatch does raise (`TransportConfigError`) – the runtime face of the
+  C16 finding that a travel matrix with a missing row is accepted.
 
 Not provable because false (genuine defects, listed as known findings with replayable inputs):
 a delivery or a finished operation is put into a buffer without any check that it has room
@@ -76,5 +84,24 @@ theorem c05_release_needs_room {s s' : State} {r r' : Rng} {m : MachineState}
     ∃ mc ∈ inst.machines, mc.id = m.id ∧ (m.post.store.length : Int) < mc.post.cap := by
   obtain ⟨_, _, mc, _, _, _, _, _, _, hmc, hid, hroom, _, _⟩ := outageToIdle_spec h
   exact ⟨mc, hmc, hid, hroom⟩
+
+/-- **Applying an offered transition never raises** (first link of "accepting the offered
+transition returns normally"; what follows it – the timed loop, deliveries into finite buffers –
+is where the recorded findings lie). -/
+theorem c05_offered_transition_applies {ec : EnvCfg} {st : RewardStatic} {s0 : State} {e : EnvState}
+    (hst : Start orc inst s0) (hT : tablesTotalB inst = true) (h0 : readyB inst s0 = true)
+    (h : EnvReach orc inst ec st s0 e) :
+    ∀ tr ∈ e.res.possible, ∃ s' r', applyTransition orc inst e.res.state e.rng tr = .ok (s', r') :=
+  env_offer_applies_of_guards hst hT h0 h
+
+/-- the hypothesis on the tables cannot be dropped: an instance meeting every `Start` guard whose
+travel matrix has no row from the output buffer reaches an environment state with an offer whose
+application raises -/
+theorem c05_tables_must_be_total : ∃ e, EnvReach ExT.orc0 Ex.inst ExT.ec ExT.st Ex.s0 e ∧
+    ∃ tr ∈ e.res.possible, applyTransition ExT.orc0 Ex.inst e.res.state e.rng tr = .error .transportConfig :=
+  ExT.ex_offer_raises
+
+/-- non-vacuity: the example instance completed by the three missing travel entries meets the guards -/
+example : tablesTotalB ExT.instT = true ∧ readyB ExT.instT Ex.s0 = true := by decide
 
 end JSL
